@@ -15,6 +15,16 @@ CHECKS = {
     note="Trusted: TLC, zipfile, lxml, the projection (zip read with zipfile+lxml only; loaded package via iter_parts/rels). "
          "XML equivalence = prefix-independent canonical form modulo whitespace-only text between elements. Bounded by config constants.",
     technique="TLA+ state machine explored by TLC; TLC-generated packages replayed into the real library; observed traces validated by TLC"),
+ "C20": dict(
+    category="other", design_ref="DESIGN.md §4 C20",
+    text="EnumTables.tla: TLC evaluates nine named clauses (TokenInjective, TokenInSchemaEnum, RoundTrip, PresetExists, HasTableEntry, "
+         "AdjNamesAndOrderEqual, AdjDefaultsEqual, ChartTypeInverse, ChartTokenInSchemaEnum) over tables extracted at run time (every "
+         "BaseXmlEnum class and alias, the XSD enumerations of the attribute types they are declared on, pptx.spec.autoshape_types, "
+         "presetShapeDefinitions.xml, chart writers/inspectors over all 73 chart types), naming each offending member; then explores "
+         "AddAutoShape/AddChart -> SaveReopen -> ReadBack over all 182 shape types and 29 writable chart types on slide and group; every "
+         "path is replayed through the public API and validated step by step by TLC. Exhaustive over the finite tables.",
+    note="Trusted: TLC, lxml, the XSD and preset files in /repo/spec. UP_ARROW preset clauses not judged (the standard's file lacks upArrow).",
+    technique="TLC-evaluated relation over extracted tables + exhaustive replay with TLC trace validation"),
  "C02": dict(
     category="model_checking", design_ref="DESIGN.md §4 C02",
     text="Deck.tla/MC_Deck.tla: history machine over the public API (open, slides access, add slide, add shape of every kind incl. picture/"
@@ -34,6 +44,16 @@ CHECKS = {
          "and not reassigned while referenced, part names unique, slides named slide1..n once accessed, earlier lookups stable.",
     note="Trusted: TLC, the lxml-based observation (never via prs.slides). Known finding: turbo mode + group/freeform allocator collision (experimental feature).",
     technique="TLA+ allocator transcription checked by TLC + history replay + TLC trace validation on observed ids"),
+ "C11": dict(
+    category="exploration", design_ref="DESIGN.md §4 C11",
+    text="SimpleTypes.tla: for each of 65 (python simple type, XSD type) pairs extracted at run time from the 159 attribute declarations and "
+         "the XSD facets, TLC enumerates anchored value tokens <<anchor, delta, half-quantum, ulp>>, seeded float draws, wrong Python types, "
+         "NaN/+-inf, every enumeration member and XSD token, and every lexical alternative for reading. The driver assigns and reads each "
+         "through a real element at every site; lxml XMLSchema on a probe attribute of exactly that XSD type judges the written strings. "
+         "TLC evaluates A (accepted => schema-valid), B (refused => TypeError/ValueError, nothing written), C (valid alternative readable), "
+         "D (read(write) within quantum), E for plain ranges and enumerations.",
+    note="Trusted: TLC, lxml XMLSchema, a hand table of unit scales for 7 converting types. E reported (not judged) for other types.",
+    technique="TLC-generated boundary/threshold domain from extracted facets, schema-judged replay through real elements, TLC clause evaluation"),
  "C14": dict(
     category="model_checking", design_ref="DESIGN.md §4 C14",
     text="Table.tla has a property layer (regions read off the public readers, text tokens, frame = sum) and an Impl layer (the four "
